@@ -21,7 +21,7 @@ pub static PROP: PropDef = PropDef {
     check,
     rule: "enumeration (fixed tapes): every view kind {TypedImage, TypedImageRef, TypedCroppedImage over a reference / over an owned image, nested TypedCroppedImage, TypedCroppedImageMut read \
            through its shared interface, a user-defined view that only implements the required methods (so the traits' default split implementations run); \
-           mutable: TypedImage, TypedCroppedImageMut, nested TypedCroppedImageMut, user-defined mutable view} x every view size 0..8 x 0..8 (0..20 thorough) x {split by height, by width} x every \
+           mutable: TypedImage, TypedCroppedImageMut, nested TypedCroppedImageMut, user-defined mutable view} x every view size 0..8 x 0..8 (0..32 thorough) x {split by height, by width} x every \
            (start, size, parts) with start in 0..extent+1, size in 1..extent+1, parts in 1..size+1 (so invalid triples are included), each valid split followed by a second split of every part \
            (split-of-split through the parts' own types). Generated tapes: views up to 40x24 with random triples and depth-3 compositions. Oracle: None <=> parts > size or size > extent or \
            start > extent - size; else exactly `parts` views in order, extents floor or ceil of size/parts summing to size, orthogonal extent unchanged, identity tags read through part k are the \
@@ -99,7 +99,7 @@ fn pixels_of_mut(bytes: &mut [u8]) -> &mut [I32] {
 }
 
 fn fixed(tier: Tier) -> Vec<Vec<u8>> {
-    let max = if tier == Tier::Thorough { 20 } else { 8 };
+    let max = if tier == Tier::Thorough { 32 } else { 8 };
     let mut v = Vec::new();
     // views of extent u32::MAX x 0 / 0 x u32::MAX (no pixels, no memory): part-size arithmetic at the top of the range
     for kind in [1u8, 2, 6] {
@@ -758,7 +758,7 @@ fn check(tape: &[u8], _ctx: &Ctx) -> Outcome {
     if tape.len() == 6 && tape[0] == 0xEE && tape[5] == 0xEE && tape[1] == 0 && (tape[3] == 250 || tape[3] == 251) && tape[2] < SHARED_KINDS {
         return enumerate_extreme(tape[2], tape[3] == 250);
     }
-    if tape.len() == 6 && tape[0] == 0xEE && tape[5] == 0xEE && tape[1] < 2 && tape[3] <= 20 && tape[4] <= 20 {
+    if tape.len() == 6 && tape[0] == 0xEE && tape[5] == 0xEE && tape[1] < 2 && tape[3] <= 32 && tape[4] <= 32 {
         let mutable = tape[1] == 1;
         let kinds = if mutable { MUT_KINDS } else { SHARED_KINDS };
         if tape[2] < kinds {
